@@ -2,6 +2,7 @@ package props
 
 import (
 	"context"
+	"crypto/tls"
 	"io"
 	"log"
 	"math/rand"
@@ -59,6 +60,9 @@ type carrierOpt struct {
 	basePath  string
 	tls       bool
 	unix      bool // serve on a unix-domain socket instead of loopback TCP
+	// skipVerify: the TLS client does not verify the server's certificate chain (self-signed or pinned
+	// certificates): still a TLS connection
+	skipVerify bool
 	// decorate registers the scripted service through grpchan.WithInterceptor with pass-through interceptors
 	decorate bool
 }
@@ -123,7 +127,7 @@ func NewHTTPServer(svc *Service, o carrierOpt) *Carrier {
 	if o.register != nil {
 		o.register(s)
 	}
-	return httpCarrier("http-server", svc, s, base, o.tls, o.unix)
+	return httpCarrier("http-server", svc, s, base, o.tls, o.unix, o.skipVerify)
 }
 
 // NewHTTPMux: the bulk-registration helper on a ServeMux.
@@ -139,10 +143,10 @@ func NewHTTPMux(svc *Service, o carrierOpt) *Carrier {
 	}
 	mux := http.NewServeMux()
 	httpgrpc.HandleServices(mux.HandleFunc, base, reg, o.unaryInt, o.streamInt)
-	return httpCarrier("http-mux", svc, mux, base, o.tls, o.unix)
+	return httpCarrier("http-mux", svc, mux, base, o.tls, o.unix, o.skipVerify)
 }
 
-func httpCarrier(name string, svc *Service, h http.Handler, base string, useTLS, unix bool) *Carrier {
+func httpCarrier(name string, svc *Service, h http.Handler, base string, useTLS, unix bool, skipVerify ...bool) *Carrier {
 	var ts *httptest.Server
 	tr := newHTTPTransport()
 	ts = httptest.NewUnstartedServer(h)
@@ -165,6 +169,11 @@ func httpCarrier(name string, svc *Service, h http.Handler, base string, useTLS,
 	if useTLS {
 		ts.StartTLS()
 		tr = ts.Client().Transport.(*http.Transport)
+		if len(skipVerify) > 0 && skipVerify[0] {
+			tr = tr.Clone()
+			tr.TLSClientConfig = &tls.Config{InsecureSkipVerify: true}
+			name += "-skipverify"
+		}
 	} else {
 		ts.Start()
 	}
